@@ -16,6 +16,7 @@ monitor in exact rational arithmetic over integer microseconds.
 import json
 import math
 import threading
+import zlib
 from fractions import Fraction
 
 from hypothesis import strategies as st
@@ -88,6 +89,23 @@ class MiniZk(object):
         self.sets = 0
         self.seq = 0
         self.listeners = []
+        # order in which get_children lists a node (ZooKeeper promises none:
+        # the server walks a hash set): None/'created' = creation order,
+        # 'reverse', or ['hash', salt] = by crc32 of salt + name
+        self.listing = None
+
+    def _listed(self, names):
+        """`names` (creation order) in the listing order of this history."""
+        mode = self.listing
+        if mode in (None, 'created'):
+            return names
+        if mode == 'reverse':
+            return names[::-1]
+        if isinstance(mode, list) and mode[0] == 'hash':
+            salt = ('%d:' % mode[1]).encode()
+            return sorted(names, key=lambda name: (
+                zlib.crc32(salt + name.encode()), name))
+        raise AssertionError('harness: listing %r' % (mode,))
 
     # -- kazoo client surface ------------------------------------------------
     def add_listener(self, listener):
@@ -200,10 +218,10 @@ class MiniZk(object):
             if watch not in registered:
                 registered.append(watch)
         prefix = path.rstrip('/') + '/'
-        return [
+        return self._listed([
             name[len(prefix):] for name in self.nodes
             if name.startswith(prefix) and '/' not in name[len(prefix):]
-        ]
+        ])
 
     def ensure_path(self, path):
         parts = [part for part in path.split('/') if part]
@@ -487,6 +505,7 @@ class Run(object):
         self.clock = Clock()
         self.model = Model()
         self.zk.seq = case['seq0']
+        self.zk.listing = case.get('listing')
         self.real_api = bool(case.get('real_api'))
         self.apizk = ApiZk(self.zk, stats)
         self.verdict = None
@@ -692,6 +711,11 @@ class Run(object):
         where = 'round %d' % self.round
         active = model.begin(now_us)
         truth = {name: self.zk.instances(name) for name in model.confs}
+        # as /scheduled lists them (what the monitor's watch was handed)
+        listed = {name: [] for name in model.confs}
+        for child in self.zk.get_children(SCHED):
+            if child.rpartition('#')[0] in listed:
+                listed[child.rpartition('#')[0]].append(child)
         before = {name: conf['tokens'] for name, conf in active.items()}
         self.calls = []
         self.outcomes = {}
@@ -830,8 +854,24 @@ class Run(object):
                         'c20.delete.not-the-surplus',
                         '%s: deletes %d instance(s) %r, surplus is %d'
                         % (ctx, len(named), named, surplus))
+                if cur > surplus and listed[name] != live:
+                    # the listing handed to the watch was not in id order
+                    self.stats.count('delete:listing-not-in-id-order')
+                    if (listed[name][:surplus] != oldest
+                            and listed[name][cur - surplus:] != newest):
+                        self.stats.count(
+                            'delete:listing-ends-differ-from-age-ends')
                 if not any(w is not None and sorted(w) == sorted(named)
                            for w in want):
+                    if sorted(named) not in (sorted(oldest), sorted(newest)):
+                        # neither the oldest nor the newest block: the
+                        # instances were not picked by age at all
+                        raise Violation(
+                            'c20.delete.not-by-age',
+                            '%s: deletes %r, neither the %d oldest nor the '
+                            '%d newest of %r (/scheduled listed them as %r)'
+                            % (ctx, named, surplus, surplus, live,
+                               listed[name]))
                     raise Violation(
                         'c20.delete.wrong-end',
                         '%s: deletes %r, expected %r of %r'
@@ -1018,6 +1058,13 @@ def cases(draw, max_rounds=30):
         'init': init,
         'rounds': rounds,
     }
+    # the order in which ZooKeeper lists children (no order is promised):
+    # creation (= id) order, reverse, or a hash order
+    listing = draw(st.one_of(
+        st.sampled_from(['created', 'reverse']),
+        st.tuples(st.just('hash'), st.integers(0, 7)).map(list)))
+    if listing != 'created':
+        case['listing'] = listing
     if draw(st.integers(0, 4)) == 0:
         case['waited0'] = [apps[0]]
     if real_api:
